@@ -168,7 +168,8 @@ Proof. exact len_slice. Qed.
 Print Assumptions C06_counts. Print Assumptions C06_len_of_slice.
 
 (* columns: a duplicate-free list of available columns comes back in the requested order; with an explicit
-   index drawn from stored columns the index columns are removed from the data columns; the rows never
+   index drawn from the available columns (stored or partition) the index columns are removed from the data
+   columns; the rows never
    depend on the column choice *)
 Theorem C06_columns :
   forall (D Name : Type) (neqb : Name -> Name -> bool), (forall a b : Name, reflect (a = b) (neqb a b)) ->
@@ -180,16 +181,23 @@ Theorem C06_columns_with_index :
   forall (D Name : Type) (neqb : Name -> Name -> bool), (forall a b : Name, reflect (a = b) (neqb a b)) ->
   forall (h : handle D Name) (req idx : list Name),
     NoDup req -> incl req (h_cols h ++ cats_of h) -> incl idx (h_cols h ++ cats_of h) ->
-    (forall x, In x idx -> ~ In x (cats_of h)) ->
     out_columns neqb h (mk_ropts (Some req) (IdxNames idx))
     = Ok (filter (fun c => negb (mem neqb c idx)) req, idx).
 Proof. exact out_columns_requested. Qed.
+(* the pinned tree kept a partition column that was chosen as index among the data columns as well
+   (and never filled the index: replayed on the real code by the harness; repaired by fix 7fbe445) *)
+Theorem C06_partition_index_refuted :
+  forall (D Name : Type) (neqb : Name -> Name -> bool), (forall a b : Name, reflect (a = b) (neqb a b)) ->
+  forall (h : handle D Name) (c p : Name),
+    h_rgs h <> [] -> h_cols h = [c] -> h_pcols h = [p] -> c <> p ->
+    out_columns_pinned neqb h (mk_ropts (Some [c; p]) (IdxNames [p])) = Ok ([c; p], [p]).
+Proof. exact out_columns_pinned_keeps_index_column. Qed.
 Theorem C06_columns_rows_independent :
   forall (D R Name : Type) (neqb : Name -> Name -> bool) (rows : D -> list R) (nrows : D -> nat)
          (h : handle D Name) (o1 o2 : ropts Name) (f1 f2 : frame R Name),
     to_pandas neqb rows nrows h o1 = Ok f1 -> to_pandas neqb rows nrows h o2 = Ok f2 -> f_rows f1 = f_rows f2.
 Proof. exact rows_independent_of_columns. Qed.
-Print Assumptions C06_columns. Print Assumptions C06_columns_with_index. Print Assumptions C06_columns_rows_independent.
+Print Assumptions C06_columns. Print Assumptions C06_columns_with_index. Print Assumptions C06_partition_index_refuted. Print Assumptions C06_columns_rows_independent.
 
 (* THE PROPERTY, for compositions of any length: running any sequence of handle operations
    (slice, pick, pickle, copy, deepcopy) followed by any read (to_pandas / iter_row_groups / head n /
